@@ -1170,6 +1170,93 @@ def _sources(ctx, fn: FuncInfo, e: ast.AST, depth: int = 8, seen: Optional[Set[i
     return out
 
 
+def _attr_sources(ctx, fn: FuncInfo, e: ast.AST, depth: int = 6, seen: Optional[Set[int]] = None) -> Set[str]:
+    """Names of the attributes whose values flow (through local assignments, flow-insensitively) into the expression."""
+    out: Set[str] = set()
+    seen = seen if seen is not None else set()
+    if depth < 0 or id(e) in seen:
+        return out
+    seen.add(id(e))
+    for n in ast.walk(e):
+        if isinstance(n, ast.Attribute) and isinstance(n.ctx, ast.Load):
+            out.add(n.attr)
+        elif isinstance(n, ast.Name) and isinstance(n.ctx, ast.Load):
+            _, defs = ctx.inf.lookup_name(fn, n.id)
+            for d in defs or []:
+                if d.kind in ("assign", "annassign", "unpack", "with", "elem", "elem_unpack") and isinstance(d.value, ast.AST):
+                    out |= _attr_sources(ctx, fn, d.value, depth - 1, seen)
+    return out
+
+
+def check_names_written(ctx) -> None:
+    """Sibling agreement of the `setName` calls of the writer: the name written for an object derives from that
+    object's name only. A fallback to the (escaped) identifier makes an object without a name come back with the
+    identifier as its name."""
+    fn = ctx.prog.func(MOD, "_model_to_sbml")
+    calls = [n for n in walk_local(fn.node) if isinstance(n, ast.Call) and isinstance(n.func, ast.Attribute) and n.func.attr == "setName" and n.args]
+    if len(calls) < 3:
+        ctx.note("C10.fields: fewer than three setName calls in the writer; names not read")
+        return
+    for c in calls:
+        src = _attr_sources(ctx, fn, c.args[0])
+        if src & {"id", "_id"} or any(s.startswith("F_") and s.endswith("_REV") for s in src):
+            ctx.bad("C10.fields", fn, enclosing_stmt(c), f"the name written by `{norm(c, 50)}` can be the object's identifier (values of {sorted(src & {'id', '_id', 'name'})} flow into it): an object without a name comes back from SBML with its escaped identifier as its name")
+        else:
+            ctx.ok("C10.fields", fn, enclosing_stmt(c), "the name written derives from the object's name only")
+
+
+ESCAPERS = {"xml.sax.saxutils.escape", "html.escape", "xml.sax.saxutils.quoteattr"}
+UNESCAPERS = {"xml.sax.saxutils.unescape", "html.unescape"}
+
+
+def _passes_through(ctx, fn: FuncInfo, e: ast.AST, wanted: Set[str], depth: int = 4) -> bool:
+    """Does the value of e come out of a call to one of the wanted library functions (directly, or through the locals
+    it is built from)?"""
+    for n in ast.walk(e):
+        if isinstance(n, ast.Call):
+            sym = ctx.prog.resolve(fn.unit, norm(n.func))
+            if isinstance(sym, str) and sym in wanted:
+                return True
+    if depth > 0:
+        for n in ast.walk(e):
+            if isinstance(n, ast.Name) and isinstance(n.ctx, ast.Load):
+                _, defs = ctx.inf.lookup_name(fn, n.id)
+                vals = [d.value for d in defs or [] if d.kind in ("assign", "annassign") and isinstance(d.value, ast.AST)]
+                if vals and all(_passes_through(ctx, fn, v, wanted, depth - 1) for v in vals):
+                    return True
+    return False
+
+
+def check_notes_escaping(ctx) -> None:
+    """Notes are written as XHTML text built by string formatting and read back with a pattern over the XML string:
+    text that is put between tags has to pass an XML escape on the way out and the matching unescape on the way in,
+    or a note that contains `<` or `&` makes libsbml reject the notes element - and every note of that object is lost."""
+    w = ctx.prog.func(MOD, "_sbase_notes_dict")
+    r = ctx.prog.func(MOD, "_parse_notes_dict")
+    sites = []
+    for js in [n for n in walk_local(w.node) if isinstance(n, ast.JoinedStr)]:
+        if not any(isinstance(p, ast.Constant) and isinstance(p.value, str) and "<" in p.value for p in js.values):
+            continue
+        for fv in js.values:
+            if isinstance(fv, ast.FormattedValue):
+                sites.append((js, fv))
+    if not sites:
+        ctx.note("C10.notes: the writer builds the notes element in a way that is not read (no formatted markup found)")
+        return
+    raw = [(js, fv) for js, fv in sites if not _passes_through(ctx, w, fv.value, ESCAPERS)]
+    stores = [n for n in walk_local(r.node) if isinstance(n, ast.Assign) and isinstance(n.targets[0], ast.Subscript)]
+    unesc_ok = bool(stores) and all(_passes_through(ctx, r, st.value, UNESCAPERS) and _passes_through(ctx, r, st.targets[0].slice, UNESCAPERS) for st in stores)
+    if raw:
+        js, fv = raw[0]
+        ctx.bad("C10.notes", w, enclosing_stmt(js), f"`{norm(fv.value)}` is formatted into markup (`{norm(js, 50)}`) without an XML escape: a note whose text contains `<` or `&` makes the notes element ill-formed, libsbml refuses it and all notes of that object are lost on export")
+    elif not stores:
+        ctx.note("C10.notes: the reader stores notes in a way that is not read")
+    elif not unesc_ok:
+        ctx.bad("C10.notes", r, stores[0], "the writer escapes the text of a note, the reader stores it without the matching unescape: `a < b` comes back as `a &lt; b`")
+    else:
+        ctx.ok("C10.notes", w, enclosing_stmt(sites[0][0]), f"{len(sites)} formatted value(s) pass an XML escape on export and the matching unescape on import")
+
+
 def check_active_objective(ctx) -> None:
     """The objective that is read is the document's *active* objective (fbc allows several)."""
     fn = ctx.prog.func(MOD, "_sbml_to_model")
@@ -1243,6 +1330,9 @@ def run(ctx) -> None:
     check_direction(ctx)
     ctx.guard(check_active_objective, ctx)
     check_fields(ctx)
+    ctx.guard(check_names_written, ctx)
+    ctx.rule("C10.notes", "T7: text written between tags passes an XML escape, the reader applies the matching unescape", floor=1)
+    ctx.guard(check_notes_escaping, ctx)
     ctx.guard(check_compartment_source, ctx)
     ctx.guard(check_objective_written, ctx)
     ctx.guard(check_member_lookup, ctx)
